@@ -3,6 +3,7 @@ package govc
 import (
 	"go/types"
 	"regexp"
+	"strconv"
 	"strings"
 
 	"golang.org/x/tools/go/ssa"
@@ -214,4 +215,15 @@ func (x *Exec) typeSeparation(t types.Type, v string) {
 			x.c.assume(or(eq(v, "nil"), not(eq(sx("ref", v), lo.ref))))
 		}
 	}
+}
+
+// typeArgText: the type argument of typeis/unbox: an expression that reads as a type name, or a string literal for types
+// the expression syntax cannot spell ("[]interface{}")
+func typeArgText(e Expr) string {
+	if l, ok := e.(ELit); ok && l.Kind == "string" {
+		if s, err := strconv.Unquote(l.Val); err == nil {
+			return s
+		}
+	}
+	return e.String()
 }
